@@ -1,10 +1,141 @@
 (* C18 -- zone factories return one shared object per key, safely under threads.
-   Statements only; proofs are in factory/FacThm.v and factory/FacEqThm.v. *)
+   Statements only; proofs are in coq/factory/*.v.  The transition system `step` (FacModel.v)
+   mirrors _factories.py / GettzFunc at statement granularity; `run (init progs) sched` executes
+   an arbitrary schedule (list of thread ids) of arbitrary per-thread programs. *)
 From Coq Require Import ZArith List Bool.
-From V Require Import factory.FacModel factory.FacSpec factory.FacEq factory.FacEqThm.
+From V Require Import factory.FacModel factory.FacSpec factory.FacObs factory.FacEq factory.FacEqThm
+  factory.FacLock factory.FacLock2 factory.FacRefute factory.FacThm factory.FacThm2 factory.FacThm3 factory.FacProg.
 Import ListNotations.
 Open Scope Z_scope.
 
+(* ---- identity: for ALL programs and ALL schedules the identities returned satisfy the spec:
+   a later call for the same (factory, key, cache epoch) returns the object of an earlier call
+   whenever a client still references that object. *)
+Theorem C18_factory_identity : forall progs sched,
+  spec_identity (obs_of_log (log (run (init progs) sched))) = true.
+Proof. exact factory_identity_lemma. Qed.
+Print Assumptions C18_factory_identity.
+
+(* the same, spelled out on the observation list (newest first) *)
+Theorem C18_factory_identity_explicit : forall progs sched later r earlier r',
+  obs_of_log (log (run (init progs) sched)) = later ++ r :: earlier ->
+  In r' earlier -> o_fac r' = o_fac r -> o_key r' = o_key r -> o_epoch r' = o_epoch r ->
+  In (o_obj r') (o_held r) -> o_obj r = o_obj r'.
+Proof. exact factory_identity_explicit_lemma. Qed.
+Print Assumptions C18_factory_identity_explicit.
+
+(* ---- never two different live objects for one key (alive = any strong reference: client,
+   strong cache, a running call's local) *)
+Theorem C18_no_two_live_objects_per_key : forall progs sched t1 t2 f k e o1 o2 h1 h2,
+  let s := run (init progs) sched in
+  In (ERet t1 f k o1 e h1) (log s) -> In (ERet t2 f k o2 e h2) (log s) ->
+  alive s o1 = true -> alive s o2 = true -> o1 = o2.
+Proof. exact no_two_live_lemma. Qed.
+Print Assumptions C18_no_two_live_objects_per_key.
+
+Theorem C18_no_two_live_bound_objects_per_key : forall progs sched t1 t2 f k e o1 o2,
+  let s := run (init progs) sched in
+  In (EBind t1 f k o1 e) (log s) -> In (EBind t2 f k o2 e) (log s) ->
+  alive s o1 = true -> alive s o2 = true -> o1 = o2.
+Proof. exact no_two_live_bound_lemma. Qed.
+Print Assumptions C18_no_two_live_bound_objects_per_key.
+
+(* ---- retention only.  FULL statement demanded by the property text:
+       forall progs sched, spec_identity_strict (obs_of_log (log (run (init progs) sched))) = true
+   (identity regardless of cache_clear / set_cache_size / eviction).  It is FALSE of the faithful
+   model because of gettz.cache_clear (C18_retention_cache_clear_refuted, finding F-C18-a).
+   Proved with the guard "no cache_clear in the programs": set_cache_size (any size, also 0 and
+   negative) and LRU eviction never change which object a call returns while a client holds it. *)
+Theorem C18_retention_only_guarded : forall progs sched,
+  (forall p, In p progs -> ~ In OClear p) ->
+  spec_identity_strict (obs_of_log (log (run (init progs) sched))) = true.
+Proof. exact retention_only_lemma. Qed.
+Print Assumptions C18_retention_only_guarded.
+
+Theorem C18_retention_cache_clear_refuted :
+  exists progs sched,
+    finished (run (init progs) sched) = true /\
+    spec_identity_strict (obs_of_log (log (run (init progs) sched))) = false.
+Proof. exact retention_cache_clear_refuted_lemma. Qed.
+Print Assumptions C18_retention_cache_clear_refuted.
+
+(* ---- tzutc(): every call returns the object created at import (tz.UTC) *)
+Theorem C18_tzutc_identity : forall progs sched o,
+  In o (utc_results (log (run (init progs) sched))) -> o = Some (-1).
+Proof. exact tzutc_identity_lemma. Qed.
+Print Assumptions C18_tzutc_identity.
+
+(* ... which depends on `UTC = tzutc()` having run at import: _TzSingleton takes no lock *)
+Theorem C18_singleton_uninitialised_refuted :
+  exists progs sched a b,
+    utc_results (log (run (init_gen None progs) sched)) = [Some a; Some b] /\ a <> b.
+Proof. exact singleton_uninitialised_refuted_lemma. Qed.
+Print Assumptions C18_singleton_uninitialised_refuted.
+
+(* ---- threads never observe an exception: requests whose constructor / nocache does not raise
+   (and set_cache_size arguments >= 0) never end in an exception, whatever the interleaving *)
+Theorem C18_no_exception : forall progs sched t,
+  (forall p o, In p progs -> In o p -> ok_op o) ->
+  ~ In (EExc t) (log (run (init progs) sched)).
+Proof. exact no_exception_lemma. Qed.
+Print Assumptions C18_no_exception.
+
+Example C18_no_exception_hypothesis_example :
+  forall p o, In p race_progs -> In o p -> ok_op o.
+Proof. intros p o [<-|[<-|[]]] [<-|[]]; exact I. Qed.
+
+(* ---- locks: no deadlock, released on every path (also when the constructor or popitem raise),
+   mutual exclusion *)
+Theorem C18_no_deadlock : forall progs sched,
+  let s := run (init progs) sched in
+  finished s = false ->
+  exists t th, nth_error (thrs s) t = Some th /\ prog th <> [] /\ step s t <> None.
+Proof. exact no_deadlock_lemma. Qed.
+Print Assumptions C18_no_deadlock.
+
+(* ---- no livelock either: a step of an unfinished thread that is not blocked strictly decreases
+   a well-founded measure (40 per pending operation minus the progress inside the current one,
+   then the length of gettz's strong cache for set_cache_size's loop), so every run that keeps
+   granting enabled threads ends, and from every reachable state the system can finish *)
+Theorem C18_progress : forall progs sched t th s',
+  let s := run (init progs) sched in
+  nth_error (thrs s) t = Some th -> prog th <> [] -> step s t = Some s' -> mlt (measure s') (measure s).
+Proof. exact progress_lemma. Qed.
+Print Assumptions C18_progress.
+
+Theorem C18_measure_well_founded : well_founded mlt.
+Proof. exact mlt_wf. Qed.
+Print Assumptions C18_measure_well_founded.
+
+Theorem C18_can_always_finish : forall progs sched,
+  exists more, finished (run (init progs) (sched ++ more)) = true.
+Proof. exact can_always_finish_lemma. Qed.
+Print Assumptions C18_can_always_finish.
+
+Theorem C18_locks_released : forall progs sched,
+  let s := run (init progs) sched in
+  (finished s = true -> forall f, lock (facs s f) = None) /\
+  (forall t th f, nth_error (thrs s) t = Some th -> tpc th = PIdle -> lock (facs s f) <> Some t).
+Proof. exact locks_released_lemma. Qed.
+Print Assumptions C18_locks_released.
+
+Theorem C18_mutual_exclusion : forall progs sched t1 t2 th1 th2 f,
+  let s := run (init progs) sched in
+  nth_error (thrs s) t1 = Some th1 -> nth_error (thrs s) t2 = Some th2 ->
+  holds th1 f = true -> holds th2 f = true -> t1 = t2.
+Proof. exact mutual_exclusion_lemma. Qed.
+Print Assumptions C18_mutual_exclusion.
+
+(* ---- what the fix e7e8908 bought: the pre-fix factories (lookup-or-create before the lock)
+   violate the spec under a two-thread schedule *)
+Theorem C18_old_factory_identity_refuted :
+  exists progs sched,
+    finished (run_old (init progs) sched) = true /\
+    spec_identity (obs_of_log (log (run_old (init progs) sched))) = false.
+Proof. exact old_factory_identity_refuted_lemma. Qed.
+Print Assumptions C18_old_factory_identity_refuted.
+
+(* ---- equality layer *)
 Theorem C18_zone_eq_refl : forall z, zone_eq z z = true.
 Proof. exact zone_eq_refl_lemma. Qed.
 Print Assumptions C18_zone_eq_refl.
@@ -19,3 +150,11 @@ Theorem C18_eq_zones_equal_offsets :
     utcoffset isdst range_off file_off ical_off a i = utcoffset isdst range_off file_off ical_off b i.
 Proof. exact eq_zones_equal_offsets_lemma. Qed.
 Print Assumptions C18_eq_zones_equal_offsets.
+
+(* ---- non-vacuity: a two-thread run in which both calls complete, return the same object and
+   the spec is checked on two observations *)
+Example C18_example_two_threads :
+  let s := run (init race_progs) (race_sched ++ repeat 1%nat 20) in
+  finished s = true /\ map o_obj (obs_of_log (log s)) = [1; 1] /\
+  map snd (refs s) = [1; 1].
+Proof. vm_compute. repeat split. Qed.
